@@ -402,6 +402,7 @@ impl Sut {
     pub fn reset() {
         crate::proto::verif_tcb_reset();
         let _ = events_take();
+        super::shadow::reset_flows();
     }
 
     pub fn tcb_len() -> usize {
@@ -412,7 +413,26 @@ impl Sut {
         crate::proto::verif_tcb_poisoned()
     }
 
+    /// Process one received frame. When the case carries shadow traffic (vf/shadow.rs) a sibling of
+    /// the frame is processed first and its result (and log output) discarded.
     pub fn frame(&self, f: &[u8]) -> Out {
+        if super::shadow::active() {
+            if let Some(g) = super::shadow::before(f, self.ips.is_some()) {
+                let so = self.frame_raw(&g);
+                super::shadow::learn(f, &so, true);
+                if !matches!(self.cfg.logger, LoggerKind::None) {
+                    let _ = capture_take();
+                    let _ = events_take();
+                }
+            }
+            let o = self.frame_raw(f);
+            super::shadow::learn(f, &o, false);
+            return o;
+        }
+        self.frame_raw(f)
+    }
+
+    fn frame_raw(&self, f: &[u8]) -> Out {
         let mut log = MetaLogger::new();
         match self.cfg.logger {
             LoggerKind::None => {}
